@@ -299,7 +299,7 @@ def _edit_step(kind, structured=False):
                     z3.Select(after.val, addr.t) == E.I.to_u(empty_res[0]),
                     E.eq(h.fields["weight"], E.I.binop("Add", w0, empty_res[1])),
                     E.I.to_u(got[1]) == E.I.to_u(empty_res[2]),
-                    len(new_b) == 2 and E.eq(new_b[0], b0[0]) and E.I.to_u(new_b[-1]) == E.I.to_u(empty_res[3]))))
+                    E.And(E.eq(new_b[0], b0[0]), E.I.to_u(new_b[-1]) == E.I.to_u(empty_res[3])) if len(new_b) == 2 else False)))
             # an addressed site is edited by ITS sub-request (applied through the site's generative function), with the site's
             # key, previous sub-trace and argdiffs; weight, retdiff and backward request are that edit's
             a1 = (g.t, sub_key, sub_old.t, sub_req.t, a.t)
@@ -308,7 +308,7 @@ def _edit_step(kind, structured=False):
                     z3.Select(after.val, addr.t) == T.edit_tr(*a1),
                     E.eq(h.fields["weight"], SReal(w0.t + T.edit_w(*a1))),
                     E.I.to_u(got[1]) == T.edit_rd(*a1),
-                    len(new_b) == 2 and E.eq(new_b[0], b0[0]) and E.I.to_u(new_b[-1]) == T.edit_bwd(*a1))),
+                    E.And(E.eq(new_b[0], b0[0]), E.I.to_u(new_b[-1]) == T.edit_bwd(*a1)) if len(new_b) == 2 else False)),
                 also=["C06", "C08"])
             E.refutable(f"static.step.{kind}", E.eq(h.fields["weight"], w0))
     return t
